@@ -91,7 +91,12 @@ def gen_history(seed, tier="quick", zoo_filter=None, faults_on=True):
             inc = None
             if comp_paths and rng.random() < 0.8:
                 inc = sorted(set(rng.sample(comp_paths, min(len(comp_paths), rng.randint(1, 4)))))
-            return {"op": "check_partials", "method": rng.choice(methods), "includes": inc}
+            op = {"op": "check_partials", "method": rng.choice(methods), "includes": inc}
+            if op["method"] == "fd" and rng.random() < 0.4:
+                # less common forms of the same excursion: other stencil, other step
+                op["form"] = rng.choice(["central", "backward", "forward"])
+                op["step"] = rng.choice([1e-5, 1e-6, 1e-7])
+            return op
         return {"op": "check_totals", "method": rng.choice(methods), "of": _subset(rng, model.of, 2), "wrt": _subset(rng, model.wrt, 2)}
 
     # A history is a sequence of visits: set a point, (fault), converge, then a burst of linearisations and
@@ -475,8 +480,13 @@ def execute(hist, stop_at_first=True, known=None, collect=True):
                 check_totals_against_ref(tot, opi, "compute_totals")
             elif kind == "check_partials":
                 with _quiet():
+                    kw = {}
+                    if op.get("form"):
+                        kw["form"] = op["form"]
+                    if op.get("step"):
+                        kw["step"] = op["step"]
                     data = prob.check_partials(out_stream=None, method=op["method"], includes=op.get("includes"),
-                                               compact_print=True)
+                                               compact_print=True, **kw)
                 excursion_since_run = op["method"]
                 fired("%s_excursion" % op["method"])
                 log.add("check_partials", op["method"], len(data))
@@ -680,7 +690,8 @@ def _ref_op_exception(spec, tighten, point, op, live_model):
                 m.prob.compute_totals(of=[o for o in op["of"] if o in m.of] or list(m.of),
                                       wrt=[w for w in op["wrt"] if w in m.wrt] or list(m.wrt))
             elif kind == "check_partials":
-                m.prob.check_partials(out_stream=None, method=op["method"], includes=op.get("includes"), compact_print=True)
+                kw = {k_: op[k_] for k_ in ("form", "step") if op.get(k_)}
+                m.prob.check_partials(out_stream=None, method=op["method"], includes=op.get("includes"), compact_print=True, **kw)
             elif kind == "check_totals":
                 m.prob.check_totals(of=[o for o in op["of"] if o in m.of] or list(m.of)[:1],
                                     wrt=[w for w in op["wrt"] if w in m.wrt] or list(m.wrt)[:1],
